@@ -11,6 +11,11 @@
 //!   match, matches inside arithmetic, in a loop, on a variable / a parameter / a constructor /
 //!   an `if`-`else`, a unit match with assignments and an early return. Every program is run with
 //!   the examinee being EACH variant of the enum (`k` = 0 ‥ N).
+//! * `order_corpus`: `match` arms in every order — all well-typed sequences of up to four arms
+//!   over two or three variants and `_`, each guarded or not (a guarded or unguarded `_` before,
+//!   between and after variant arms, several arms per variant), on the built-in `Option`, a
+//!   user-defined two-variant enum and enums of three and four variants; every combination of
+//!   guard outcomes × every variant as examinee.
 //! * `float_corpus`: nested unary / binary operator shapes on `f32` / `f64` (`-(a - b)`,
 //!   `a - (b - c)`, `-a * b`, `0.0 - a`, `a + 0.0`, `a * 1.0`, `a - a`, …) on every pair of
 //!   boundary operands (±0, ±1, ±inf, NaN, ±subnormal, ±MAX, 2^24, …; equal operands included),
@@ -299,6 +304,74 @@ pub fn match_corpus() -> Vec<Rep> {
                 arm(&def, 1, "f", t, None, blk(vec![S::Do(set("f0", bin(Op::Add, var("f0", t), lit(t, 100))))], Some(var("f0", t)))),
                 Arm { pat: None, binds: vec![], guard: None, body: val(lit(t, 0)) }]),
             m(E::XVar("s".into(), def.name.clone()), one(1, "g", var("g0", t), lit(t, 0)))))))], t);
+    out
+}
+
+// ------------------------------------------------------------------ arm orders
+
+/// Every well-typed sequence of at most `maxlen` arms over the patterns `own` (variants that
+/// get arms) and `_`, each guarded or not: nothing follows an unguarded `_`, no arm of a variant
+/// follows its unguarded arm, and at the end an unguarded `_` is present or every one of the
+/// `nvariants` variants has an unguarded arm.
+fn arm_sequences(own: &[usize], nvariants: usize, maxlen: usize) -> Vec<Vec<(Option<usize>, bool)>> {
+    fn go(own: &[usize], nvariants: usize, maxlen: usize, cur: &mut Vec<(Option<usize>, bool)>, out: &mut Vec<Vec<(Option<usize>, bool)>>) {
+        let done = cur.iter().any(|(p, g)| p.is_none() && !*g);
+        let closed = |v: usize| cur.iter().any(|(p, g)| *p == Some(v) && !*g);
+        if !cur.is_empty() && (done || (0..nvariants).all(closed)) { out.push(cur.clone()); }
+        if done || cur.len() >= maxlen { return; }
+        let mut next: Vec<(Option<usize>, bool)> = vec![];
+        for v in own { if !closed(*v) { next.push((Some(*v), true)); next.push((Some(*v), false)); } }
+        next.push((None, true));
+        next.push((None, false));
+        for s in next { cur.push(s); go(own, nvariants, maxlen, cur, out); cur.pop(); }
+    }
+    let mut out = vec![];
+    go(own, nvariants, maxlen, &mut vec![], &mut out);
+    out
+}
+
+/// `match` arms in every ORDER: guarded and unguarded `_` arms before, between and after the
+/// variant arms, several arms per variant. The i-th guard of a program is bit i of `n`, so every
+/// combination of guard outcomes is run, on every variant. First-match semantics is what the
+/// Spec (`evalArms`) says; the compiler builds one guard chain per discriminant.
+pub fn order_corpus() -> Vec<Rep> {
+    let t = STy::I32;
+    let mut out = vec![];
+    let option = EnumDef { name: "Option".into(), variants: vec![("None".into(), vec![]), ("Some".into(), vec![t])] };
+    let maybe = two_variant_defs(t).remove(0);
+    let s3 = enum_def(3, true, t);
+    let s4 = enum_def(4, true, t);
+    // (enum, variants that get arms of their own, longest sequence)
+    let contexts: Vec<(&EnumDef, Vec<usize>, usize)> = vec![
+        (&option, vec![0, 1], 4), (&maybe, vec![0, 1], 3), (&s3, vec![1, 2], 4), (&s3, vec![0, 1, 2], 3), (&s4, vec![1, 3], 3),
+    ];
+    for (def, own, maxlen) in contexts {
+        let n = def.variants.len();
+        for seq in arm_sequences(&own, n, maxlen) {
+            let mut g = 0u32;
+            let mut arms = vec![];
+            let mut shape = vec![];
+            for (i, (p, guarded)) in seq.iter().enumerate() {
+                let guard = if *guarded {
+                    let bit = bin(Op::Eq, bin(Op::Mod, bin(Op::Div, var("n", t), lit(t, 1 << g)), lit(t, 2)), lit(t, 1));
+                    g += 1;
+                    Some(bit)
+                } else { None };
+                let c = 100 * (i as u64 + 1);
+                arms.push(match p { Some(k) => value_arm(def, *k, t, c, guard), None => wild(t, c, guard) });
+                shape.push(format!("{}{}", p.map(|k| def.variants[k].0.clone()).unwrap_or_else(|| "_".into()), if *guarded { "?" } else { "" }));
+            }
+            let shape = shape.join(" ");
+            let body = val(E::Match(Box::new(mk(def, var("k", t), var("n", t))), arms));
+            let mut args = vec![];
+            for k in 0..n as u64 { for bits in 0..(1u64 << g) { args.push(vec![k, bits]); } }
+            out.push(Rep {
+                name: format!("match-order/{}/{shape}", def.name), key: format!("match-order {} [{shape}]", def.name),
+                prog: Prog { enums: vec![def.clone()], fns: vec![maker(def, t), func("main", &[("k", t), ("n", t)], t, body)] },
+                ty: t, ret: t, args,
+            });
+        }
+    }
     out
 }
 
